@@ -1,6 +1,7 @@
 /-
 C02/C03 — lemmas about one sequence (box + dispatch/persist): the invariant
-"everything at or below the box position has been dispatched (or too-long was reported)".
+"every non-marker entry at or below the box position has been dispatched (or too-long was
+reported)".
 -/
 import TdModel.Lemmas.C01
 import TdModel.Model.C02Core
@@ -20,8 +21,9 @@ def accTl (tl : Bool) : List SEv → Bool
   | .tooLong :: r => accTl true r
   | _ :: r => accTl tl r
 
-theorem safe_append (log : List Entry) (lo : Int) (a : List SEv) : ∀ (D : List Nat) (tl : Bool) (b : List SEv),
-    safe log lo D tl (a ++ b) = (safe log lo D tl a && safe log lo (accD D a) (accTl tl a) b) := by
+theorem safe_append (log : List Entry) (mk : Nat → Bool) (lo : Int) (a : List SEv) :
+    ∀ (D : List Nat) (tl : Bool) (b : List SEv),
+    safe log mk lo D tl (a ++ b) = (safe log mk lo D tl a && safe log mk lo (accD D a) (accTl tl a) b) := by
   induction a with
   | nil => intro D tl b; simp [safe, accD, accTl]
   | cons e es ih =>
@@ -74,22 +76,25 @@ theorem accTl_eq (evs : List SEv) : ∀ tl, accTl tl evs = (tl || hasTooLong evs
     | tooLong => simp [accTl, hasTooLong, ih]
     | store v => simp only [accTl, hasTooLong, ih]
 
-theorem covered_iff (log : List Entry) (lo v : Int) (D : List Nat) :
-    covered log lo v D = true ↔ ∀ e ∈ log, lo < e.pos → e.pos ≤ v → e.id ∈ D := by
+theorem covered_iff (log : List Entry) (mk : Nat → Bool) (lo v : Int) (D : List Nat) :
+    covered log mk lo v D = true ↔ ∀ e ∈ log, lo < e.pos → e.pos ≤ v → mk e.id = true ∨ e.id ∈ D := by
   unfold covered
   simp only [List.all_eq_true, Bool.or_eq_true, decide_eq_true_eq, List.contains_iff_mem]
   constructor
   · intro h e he h1 h2
-    rcases h e he with (h3 | h3) | h3
+    rcases h e he with ((h3 | h3) | h3) | h3
     · omega
     · omega
-    · exact h3
+    · exact Or.inl h3
+    · exact Or.inr h3
   · intro h e he
     by_cases h1 : e.pos ≤ lo
-    · exact Or.inl (Or.inl h1)
+    · exact Or.inl (Or.inl (Or.inl h1))
     · by_cases h2 : v < e.pos
-      · exact Or.inl (Or.inr h2)
-      · exact Or.inr (h e he (by omega) (by omega))
+      · exact Or.inl (Or.inl (Or.inr h2))
+      · rcases h e he (by omega) (by omega) with h3 | h3
+        · exact Or.inl (Or.inr h3)
+        · exact Or.inr h3
 
 /-! ### Tiling -/
 
@@ -122,10 +127,15 @@ theorem tiled_unique (es : List Entry) : ∀ c, tiled c es = true → ∀ e ∈ 
       omega
     · exact ih a.pos h.2 e he f hf h1 h2
 
-/-- A batch that is a chain from `cur` to `ns` and consists of log entries contains every log
-entry whose position lies in `(cur, ns]`. -/
-theorem chain_covers (log : List Entry) (c0 : Int) (hc0 : 0 ≤ c0) (ht : tiled c0 log = true) (us : List Upd) :
-    ∀ cur ns, chain cur us = some ns → (∀ u ∈ us, ∃ f ∈ log, f.upd = u) →
+/-- What may sit in a box: the update of a log entry, or a count-0 marker at a positive position. -/
+def Known (log : List Entry) (mk : Nat → Bool) (u : Upd) : Prop :=
+  (∃ f ∈ log, f.upd = u) ∨ (u.count = 0 ∧ 0 < u.state ∧ mk u.tag = true)
+
+/-- A batch that is a chain from `cur` to `ns` and consists of log entries (and count-0 markers)
+contains every log entry whose position lies in `(cur, ns]`. -/
+theorem chain_covers (log : List Entry) (mk : Nat → Bool) (c0 : Int) (hc0 : 0 ≤ c0) (ht : tiled c0 log = true)
+    (us : List Upd) :
+    ∀ cur ns, chain cur us = some ns → (∀ u ∈ us, Known log mk u) →
     ∀ e ∈ log, cur < e.pos → e.pos ≤ ns → e.upd ∈ us := by
   induction us with
   | nil =>
@@ -134,115 +144,158 @@ theorem chain_covers (log : List Entry) (c0 : Int) (hc0 : 0 ≤ c0) (ht : tiled 
     omega
   | cons u rest ih =>
     intro cur ns h hlog e he h1 h2
-    obtain ⟨f, hf, hfu⟩ := hlog u (List.mem_cons_self ..)
-    have hfpos := tiled_lower log c0 ht f hf
     simp only [chain] at h
     split at h
     · rename_i hc
-      have hstart : cur + f.count = f.pos := by
-        rw [← hfu] at hc
-        simp only [Entry.upd] at hc
-        rcases hc with h0 | h1
-        · omega
-        · exact h1
-      by_cases hle : e.pos ≤ f.pos
-      · have : e = f := tiled_unique log c0 ht e he f hf (by omega) hle
-        subst this
-        rw [hfu]; exact List.mem_cons_self ..
-      · have hus : u.state = f.pos := by rw [← hfu]; rfl
-        rw [hus] at h
+      rcases hlog u (List.mem_cons_self ..) with ⟨f, hf, hfu⟩ | ⟨hz, hp, _⟩
+      · have hfpos := tiled_lower log c0 ht f hf
+        have hstart : cur + f.count = f.pos := by
+          rw [← hfu] at hc
+          simp only [Entry.upd] at hc
+          rcases hc with h0 | h1
+          · omega
+          · exact h1
+        by_cases hle : e.pos ≤ f.pos
+        · have : e = f := tiled_unique log c0 ht e he f hf (by omega) hle
+          subst this
+          rw [hfu]; exact List.mem_cons_self ..
+        · have hus : u.state = f.pos := by rw [← hfu]; rfl
+          rw [hus] at h
+          exact List.mem_cons_of_mem _
+            (ih f.pos ns h (fun v hv => hlog v (List.mem_cons_of_mem _ hv)) e he (by omega) h2)
+      · -- a count-0 marker: the cursor does not move
+        have hcur : u.state = cur := by
+          rcases hc with h0 | h1
+          · omega
+          · omega
+        rw [hcur] at h
         exact List.mem_cons_of_mem _
-          (ih f.pos ns h (fun v hv => hlog v (List.mem_cons_of_mem _ hv)) e he (by omega) h2)
+          (ih cur ns h (fun v hv => hlog v (List.mem_cons_of_mem _ hv)) e he h1 h2)
     · simp at h
 
 /-! ### The invariant -/
 
-/-- Everything of the log above `lo` and at or below the box position is in `D` (or too-long
-was reported), and everything pending in the box is a log entry. -/
-structure Inv (log : List Entry) (lo : Int) (b : Box) (D : List Nat) (tl : Bool) : Prop where
-  cov : tl = true ∨ ∀ e ∈ log, lo < e.pos → e.pos ≤ b.state → e.id ∈ D
-  pend : ∀ u ∈ b.pending, ∃ e ∈ log, e.upd = u
+/-- Every non-marker log entry above `lo` and at or below the box position is in `D` (or too-long
+was reported), and everything pending in the box is known. -/
+structure Inv (log : List Entry) (mk : Nat → Bool) (lo : Int) (b : Box) (D : List Nat) (tl : Bool) : Prop where
+  cov : tl = true ∨ ∀ e ∈ log, lo < e.pos → e.pos ≤ b.state → mk e.id = true ∨ e.id ∈ D
+  pend : ∀ u ∈ b.pending, Known log mk u
 
-theorem callEvs_apply (ns : Int) (ids : List Nat) (h : ids ≠ []) :
-    callEvs ns ids [.dispatch, .store] = [.dispatch ids, .store ns] := by
-  have : ids.isEmpty = false := by cases ids <;> simp_all
-  simp [callEvs, this]
+/-- A well-behaved apply callback: dispatch, then store; markers skipped with `continue`. -/
+structure GoodCfg (c : ACfg) : Prop where
+  calls : c.calls = [.dispatch, .store]
+  cont : c.breakAtMarker = false
 
-theorem push_step (log : List Entry) (c0 lo : Int) (hc0 : 0 ≤ c0) (ht : tiled c0 log = true)
-    (b : Box) (D : List Nat) (tl : Bool) (e : Entry) (he : e ∈ log) (hI : Inv log lo b D tl) :
-    let r := sstep [.dispatch, .store] b (.push e)
-    safe log lo D tl r.2 = true ∧ Inv log lo r.1 (accD D r.2) (accTl tl r.2) := by
+/-- With `continue`, every non-marker update of an applied batch is handed to the handler. -/
+theorem mem_batchIds (c : ACfg) (hc : c.breakAtMarker = false) (us : List Upd) (i : Nat) :
+    i ∈ batchIds c us ↔ (∃ u ∈ us, u.tag = i) ∧ c.isMarker i = false := by
+  unfold batchIds
+  rw [hc]
+  simp only [Bool.false_eq_true, if_false, List.mem_filter, List.mem_map, Bool.not_eq_true']
+
+theorem callEvs_apply (ns : Int) (ids : List Nat) :
+    callEvs ns ids [.dispatch, .store] = (if ids.isEmpty then [] else [.dispatch ids]) ++ [.store ns] := by
+  simp [callEvs]
+
+theorem push_step (log : List Entry) (c : ACfg) (hg : GoodCfg c) (c0 lo : Int) (hc0 : 0 ≤ c0)
+    (ht : tiled c0 log = true)
+    (b : Box) (D : List Nat) (tl : Bool) (e : Entry) (he : Known log c.isMarker e.upd)
+    (hI : Inv log c.isMarker lo b D tl) :
+    let r := sstep c b (.push e)
+    safe log c.isMarker lo D tl r.2 = true ∧ Inv log c.isMarker lo r.1 (accD D r.2) (accTl tl r.2) := by
   simp only [sstep]
   have hsub := handle_sub b e.upd true
-  have hpend' : ∀ v ∈ (handle b e.upd true).1.pending, ∃ f ∈ log, f.upd = v := by
+  have hpend' : ∀ v ∈ (handle b e.upd true).1.pending, Known log c.isMarker v := by
     intro v hv
     rcases hsub.2 v hv with h | h
-    · exact ⟨e, he, h.symm⟩
+    · rw [h]; exact he
     · exact hI.pend v h
   rcases handle_shape b e.upd true with ⟨h1, h2⟩ | ⟨ns, us, h1, h2, h3, h4⟩
   · rw [h1]
     simp only [List.flatMap_nil, safe, accD, accTl, true_and]
     exact ⟨by rw [h2]; exact hI.cov, hpend'⟩
-  · have hus : ∀ u ∈ us, ∃ f ∈ log, f.upd = u := by
+  · have hus : ∀ u ∈ us, Known log c.isMarker u := by
       intro u hu
       have : u ∈ delivered (handle b e.upd true).2 := by rw [h1]; simpa [delivered] using hu
       rcases hsub.1 u this with h | h
-      · exact ⟨e, he, h.symm⟩
+      · rw [h]; exact he
       · exact hI.pend u h
-    have hids : us.map (·.tag) ≠ [] := by simpa using h3
     rw [h1]
-    simp only [List.flatMap_cons, List.flatMap_nil, List.append_nil, applyEvs, callEvs_apply _ _ hids,
-      safe, accD, accTl, Bool.and_true]
+    simp only [List.flatMap_cons, List.flatMap_nil, List.append_nil, applyEvs, hg.calls, callEvs_apply]
     have hstate : (handle b e.upd true).1.state = ns := by simpa using h4
-    have hcov : tl = true ∨ ∀ f ∈ log, lo < f.pos → f.pos ≤ ns → f.id ∈ us.map (·.tag) ++ D := by
+    have hcov : tl = true ∨ ∀ f ∈ log, lo < f.pos → f.pos ≤ ns →
+        c.isMarker f.id = true ∨ f.id ∈ batchIds c us ++ D := by
       rcases hI.cov with h | h
       · exact Or.inl h
       · right
         intro f hf hlo hle
         by_cases hb : f.pos ≤ b.state
-        · exact List.mem_append_right _ (h f hf hlo hb)
-        · have := chain_covers log c0 hc0 ht us b.state ns h2 hus f hf (by omega) hle
-          exact List.mem_append_left _ (List.mem_map.2 ⟨f.upd, this, rfl⟩)
-    refine ⟨?_, ?_, hpend'⟩
-    · rcases hcov with h | h
-      · simp [h]
-      · simp [(covered_iff log lo ns _).2 h]
-    · rw [hstate]; exact hcov
+        · rcases h f hf hlo hb with h' | h'
+          · exact Or.inl h'
+          · exact Or.inr (List.mem_append_right _ h')
+        · have hm := chain_covers log c.isMarker c0 hc0 ht us b.state ns h2 hus f hf (by omega) hle
+          by_cases hmk : c.isMarker f.id = true
+          · exact Or.inl hmk
+          · right
+            apply List.mem_append_left
+            rw [mem_batchIds c hg.cont]
+            exact ⟨⟨f.upd, hm, rfl⟩, by simpa using hmk⟩
+    by_cases hemp : (batchIds c us).isEmpty = true
+    · have hnil : batchIds c us = [] := by simpa using hemp
+      simp only [hemp, if_true, List.nil_append, safe, accD, accTl, Bool.and_true]
+      rw [hnil] at hcov
+      simp only [List.nil_append] at hcov
+      refine ⟨?_, ?_, hpend'⟩
+      · rcases hcov with h | h
+        · simp [h]
+        · simp [(covered_iff log c.isMarker lo ns _).2 h]
+      · rw [hstate]; exact hcov
+    · simp only [hemp, Bool.false_eq_true, if_false, List.cons_append, List.nil_append, safe, accD, accTl,
+        Bool.and_true]
+      refine ⟨?_, ?_, hpend'⟩
+      · rcases hcov with h | h
+        · simp [h]
+        · simp [(covered_iff log c.isMarker lo ns _).2 h]
+      · rw [hstate]; exact hcov
 
-theorem seq_step (log : List Entry) (lo : Int) (ac : List SCall)
+theorem seq_step (log : List Entry) (lo : Int) (c : ACfg)
     (b : Box) (D : List Nat) (tl : Bool) (calls : List SCall) (x : Int) (direct : List Entry)
-    (hw : wfOp log b (.seq calls x direct) = true) (hI : Inv log lo b D tl) :
-    let r := sstep ac b (.seq calls x direct)
-    safe log lo D tl r.2 = true ∧ Inv log lo r.1 (accD D r.2) (accTl tl r.2) := by
+    (hw : wfOp log c.isMarker b (.seq calls x direct) = true) (hI : Inv log c.isMarker lo b D tl) :
+    let r := sstep c b (.seq calls x direct)
+    safe log c.isMarker lo D tl r.2 = true ∧ Inv log c.isMarker lo r.1 (accD D r.2) (accTl tl r.2) := by
   simp only [sstep]
   simp only [wfOp, Bool.or_eq_true, Bool.and_eq_true, List.all_eq_true, Bool.not_eq_true',
     decide_eq_true_eq] at hw
   rcases hw with (⟨hs, hd⟩ | ⟨hs, hd⟩) | hs
   · -- a difference carrying `direct`
     subst hs
-    have hcov : tl = true ∨ ∀ f ∈ log, lo < f.pos → f.pos ≤ x → f.id ∈ direct.map (·.id) ++ D := by
+    have hcov : tl = true ∨ ∀ f ∈ log, lo < f.pos → f.pos ≤ x →
+        c.isMarker f.id = true ∨ f.id ∈ direct.map (·.id) ++ D := by
       rcases hI.cov with h | h
       · exact Or.inl h
       · right
         intro f hf hlo hle
         by_cases hb : f.pos ≤ b.state
-        · exact List.mem_append_right _ (h f hf hlo hb)
-        · rcases hd f hf with h' | h'
+        · rcases h f hf hlo hb with h' | h'
+          · exact Or.inl h'
+          · exact Or.inr (List.mem_append_right _ h')
+        · rcases hd f hf with (h' | h') | h'
           · simp only [Bool.and_eq_false_iff, decide_eq_false_iff_not] at h'
             omega
-          · exact List.mem_append_left _ (List.mem_map.2 ⟨f, h', rfl⟩)
+          · exact Or.inl h'
+          · exact Or.inr (List.mem_append_left _ (List.mem_map.2 ⟨f, h', rfl⟩))
     by_cases hemp : direct = []
     · subst hemp
       simp only [diffShape, callEvs, List.map_nil, List.isEmpty_nil, if_true, List.nil_append, safe, accD, accTl,
         Bool.and_true]
-      have hcov' : tl = true ∨ ∀ f ∈ log, lo < f.pos → f.pos ≤ x → f.id ∈ D := by
+      have hcov' : tl = true ∨ ∀ f ∈ log, lo < f.pos → f.pos ≤ x → c.isMarker f.id = true ∨ f.id ∈ D := by
         rcases hcov with h | h
         · exact Or.inl h
         · right; intro f hf h1 h2; simpa using h f hf h1 h2
       refine ⟨?_, ?_, hI.pend⟩
       · rcases hcov' with h | h
         · simp [h]
-        · simp [(covered_iff log lo x _).2 h]
+        · simp [(covered_iff log c.isMarker lo x _).2 h]
       · simpa using hcov'
     · have hne : (direct.map (·.id)).isEmpty = false := by cases direct <;> simp_all
       simp only [diffShape, callEvs, hne, Bool.false_eq_true, if_false, List.cons_append, List.nil_append, safe,
@@ -250,52 +303,57 @@ theorem seq_step (log : List Entry) (lo : Int) (ac : List SCall)
       refine ⟨?_, ?_, hI.pend⟩
       · rcases hcov with h | h
         · simp [h]
-        · simp [(covered_iff log lo x _).2 h]
+        · simp [(covered_iff log c.isMarker lo x _).2 h]
       · simpa using hcov
   · -- an empty difference
     subst hs
-    have hcov : tl = true ∨ ∀ f ∈ log, lo < f.pos → f.pos ≤ x → f.id ∈ D := by
+    have hcov : tl = true ∨ ∀ f ∈ log, lo < f.pos → f.pos ≤ x → c.isMarker f.id = true ∨ f.id ∈ D := by
       rcases hI.cov with h | h
       · exact Or.inl h
       · right
         intro f hf hlo hle
         by_cases hb : f.pos ≤ b.state
         · exact h f hf hlo hb
-        · have h' := hd f hf
-          simp only [Bool.and_eq_false_iff, decide_eq_false_iff_not] at h'
-          omega
+        · rcases hd f hf with h' | h'
+          · simp only [Bool.and_eq_false_iff, decide_eq_false_iff_not] at h'
+            omega
+          · exact Or.inl h'
     simp only [emptyShape, callEvs, safe, accD, accTl, Bool.and_true]
     refine ⟨?_, ?_, hI.pend⟩
     · rcases hcov with h | h
       · simp [h]
-      · simp [(covered_iff log lo x _).2 h]
+      · simp [(covered_iff log c.isMarker lo x _).2 h]
     · simpa using hcov
   · -- too long: reported before anything is persisted
     subst hs
     simp only [tooLongShape, callEvs, safe, accD, accTl, Bool.true_or, Bool.and_true]
     exact ⟨trivial, Or.inl rfl, hI.pend⟩
 
-theorem srun_inv (log : List Entry) (c0 lo : Int) (hc0 : 0 ≤ c0) (ht : tiled c0 log = true) (ops : List SOp) :
-    ∀ (b : Box) (D : List Nat) (tl : Bool), Inv log lo b D tl → wfRun [.dispatch, .store] log b ops = true →
-    safe log lo D tl (srun [.dispatch, .store] b ops).2 = true ∧
-    Inv log lo (srun [.dispatch, .store] b ops).1 (accD D (srun [.dispatch, .store] b ops).2)
-      (accTl tl (srun [.dispatch, .store] b ops).2) := by
+theorem srun_inv (log : List Entry) (c : ACfg) (hg : GoodCfg c) (c0 lo : Int) (hc0 : 0 ≤ c0)
+    (ht : tiled c0 log = true) (ops : List SOp) :
+    ∀ (b : Box) (D : List Nat) (tl : Bool), Inv log c.isMarker lo b D tl → wfRun c log b ops = true →
+    safe log c.isMarker lo D tl (srun c b ops).2 = true ∧
+    Inv log c.isMarker lo (srun c b ops).1 (accD D (srun c b ops).2) (accTl tl (srun c b ops).2) := by
   induction ops with
   | nil => intro b D tl hI _; simpa [srun, safe, accD, accTl] using hI
   | cons op ops ih =>
     intro b D tl hI hw
     simp only [wfRun, Bool.and_eq_true] at hw
-    have hstep : safe log lo D tl (sstep [.dispatch, .store] b op).2 = true ∧
-        Inv log lo (sstep [.dispatch, .store] b op).1 (accD D (sstep [.dispatch, .store] b op).2)
-          (accTl tl (sstep [.dispatch, .store] b op).2) := by
+    have hstep : safe log c.isMarker lo D tl (sstep c b op).2 = true ∧
+        Inv log c.isMarker lo (sstep c b op).1 (accD D (sstep c b op).2) (accTl tl (sstep c b op).2) := by
       cases op with
       | push e =>
-        have he : e ∈ log := by simpa [wfOp] using hw.1
-        exact push_step log c0 lo hc0 ht b D tl e he hI
+        have he : Known log c.isMarker e.upd := by
+          have := hw.1
+          simp only [wfOp, Bool.or_eq_true, Bool.and_eq_true, decide_eq_true_eq] at this
+          rcases this with h | ⟨⟨h1, h2⟩, h3⟩
+          · exact Or.inl ⟨e, h, rfl⟩
+          · exact Or.inr ⟨h1, h2, h3⟩
+        exact push_step log c hg c0 lo hc0 ht b D tl e he hI
       | clear =>
         simp only [sstep, safe, accD, accTl, true_and]
         exact ⟨hI.cov, hI.pend⟩
-      | seq calls x direct => exact seq_step log lo _ b D tl calls x direct hw.1 hI
+      | seq calls x direct => exact seq_step log lo c b D tl calls x direct hw.1 hI
     obtain ⟨h1, h2⟩ := ih _ _ _ hstep.2 hw.2
     simp only [srun]
     rw [safe_append, accD_append, accTl_append]
@@ -303,8 +361,8 @@ theorem srun_inv (log : List Entry) (c0 lo : Int) (hc0 : 0 ≤ c0) (ht : tiled c
 
 /-! ### Prefixes, the last persisted value, restart -/
 
-theorem safe_prefix (log : List Entry) (lo : Int) (D : List Nat) (tl : Bool) (a b : List SEv)
-    (h : safe log lo D tl (a ++ b) = true) : safe log lo D tl a = true := by
+theorem safe_prefix (log : List Entry) (mk : Nat → Bool) (lo : Int) (D : List Nat) (tl : Bool) (a b : List SEv)
+    (h : safe log mk lo D tl (a ++ b) = true) : safe log mk lo D tl a = true := by
   rw [safe_append] at h
   simp only [Bool.and_eq_true] at h
   exact h.1
@@ -315,10 +373,13 @@ def lastStore (v0 : Int) : List SEv → Int
   | .store v :: r => lastStore v r
   | _ :: r => lastStore v0 r
 
-theorem covered_mono (log : List Entry) (lo v : Int) (D D' : List Nat) (h : ∀ i ∈ D, i ∈ D')
-    (hc : covered log lo v D = true) : covered log lo v D' = true := by
+theorem covered_mono (log : List Entry) (mk : Nat → Bool) (lo v : Int) (D D' : List Nat) (h : ∀ i ∈ D, i ∈ D')
+    (hc : covered log mk lo v D = true) : covered log mk lo v D' = true := by
   rw [covered_iff] at hc ⊢
-  exact fun e he h1 h2 => h _ (hc e he h1 h2)
+  intro e he h1 h2
+  rcases hc e he h1 h2 with h' | h'
+  · exact Or.inl h'
+  · exact Or.inr (h _ h')
 
 theorem accD_sub (evs : List SEv) (D : List Nat) : ∀ i ∈ D, i ∈ accD D evs :=
   fun i hi => (mem_accD evs D i).2 (Or.inr hi)
@@ -328,9 +389,10 @@ theorem accTl_of_true (evs : List SEv) : accTl true evs = true := by
 
 /-- At every point of a safe trace, what is persisted is covered by what was dispatched before
 (or too-long was reported before). -/
-theorem safe_lastStore (log : List Entry) (lo : Int) (evs : List SEv) : ∀ (D : List Nat) (tl : Bool) (v0 : Int),
-    safe log lo D tl evs = true → (tl = true ∨ covered log lo v0 D = true) →
-    (accTl tl evs = true ∨ covered log lo (lastStore v0 evs) (accD D evs) = true) := by
+theorem safe_lastStore (log : List Entry) (mk : Nat → Bool) (lo : Int) (evs : List SEv) :
+    ∀ (D : List Nat) (tl : Bool) (v0 : Int),
+    safe log mk lo D tl evs = true → (tl = true ∨ covered log mk lo v0 D = true) →
+    (accTl tl evs = true ∨ covered log mk lo (lastStore v0 evs) (accD D evs) = true) := by
   induction evs with
   | nil => intro D tl v0 _ h0; simpa [accTl, accD, lastStore] using h0
   | cons e es ih =>
@@ -342,7 +404,7 @@ theorem safe_lastStore (log : List Entry) (lo : Int) (evs : List SEv) : ∀ (D :
       refine ih _ _ _ hs ?_
       rcases h0 with h | h
       · exact Or.inl h
-      · exact Or.inr (covered_mono log lo v0 D _ (fun i hi => List.mem_append_right _ hi) h)
+      · exact Or.inr (covered_mono log mk lo v0 D _ (fun i hi => List.mem_append_right _ hi) h)
     | tooLong =>
       simp only [safe] at hs
       simp only [accTl, accD, lastStore]
@@ -352,31 +414,22 @@ theorem safe_lastStore (log : List Entry) (lo : Int) (evs : List SEv) : ∀ (D :
       simp only [accTl, accD, lastStore]
       exact ih _ _ _ hs.2 hs.1
 
-theorem srun_append (ac : List SCall) (a : List SOp) : ∀ (b : Box) (c : List SOp),
-    srun ac b (a ++ c) = ((srun ac (srun ac b a).1 c).1, (srun ac b a).2 ++ (srun ac (srun ac b a).1 c).2) := by
+theorem srun_append (c : ACfg) (a : List SOp) : ∀ (b : Box) (d : List SOp),
+    srun c b (a ++ d) = ((srun c (srun c b a).1 d).1, (srun c b a).2 ++ (srun c (srun c b a).1 d).2) := by
   induction a with
-  | nil => intro b c; simp [srun]
+  | nil => intro b d; simp [srun]
   | cons op ops ih =>
-    intro b c
+    intro b d
     simp only [List.cons_append, srun]
     rw [ih]
     simp [List.append_assoc]
 
-theorem wfRun_append (ac : List SCall) (log : List Entry) (a : List SOp) : ∀ (b : Box) (c : List SOp),
-    wfRun ac log b (a ++ c) = (wfRun ac log b a && wfRun ac log (srun ac b a).1 c) := by
-  induction a with
-  | nil => intro b c; simp [wfRun, srun]
-  | cons op ops ih =>
-    intro b c
-    simp only [List.cons_append, wfRun, srun]
-    rw [ih]
-    simp [Bool.and_assoc]
-
-theorem inv_init (log : List Entry) (lo : Int) : Inv log lo { state := lo } [] false :=
+theorem inv_init (log : List Entry) (mk : Nat → Bool) (lo : Int) : Inv log mk lo { state := lo } [] false :=
   ⟨Or.inr (fun e _ h1 h2 => by simp only at h2; omega), fun u hu => by simp at hu⟩
 
-theorem complete_iff (log : List Entry) (lo : Int) (evs : List SEv) :
-    complete' log lo evs = true ↔ (hasTooLong evs = true ∨ ∀ e ∈ log, lo < e.pos → e.id ∈ dispatchedIds evs) := by
+theorem complete_iff (log : List Entry) (mk : Nat → Bool) (lo : Int) (evs : List SEv) :
+    complete' log mk lo evs = true ↔
+      (hasTooLong evs = true ∨ ∀ e ∈ log, lo < e.pos → mk e.id = true ∨ e.id ∈ dispatchedIds evs) := by
   unfold complete'
   simp only [Bool.or_eq_true, List.all_eq_true, decide_eq_true_eq, List.contains_iff_mem]
   constructor
@@ -384,15 +437,18 @@ theorem complete_iff (log : List Entry) (lo : Int) (evs : List SEv) :
     · exact Or.inl h
     · right
       intro e he hlo
-      rcases h e he with h' | h'
+      rcases h e he with (h' | h') | h'
       · omega
-      · exact h'
+      · exact Or.inl h'
+      · exact Or.inr h'
   · rintro (h | h)
     · exact Or.inl h
     · right
       intro e he
       by_cases hlo : e.pos ≤ lo
-      · exact Or.inl hlo
-      · exact Or.inr (h e he (by omega))
+      · exact Or.inl (Or.inl hlo)
+      · rcases h e he (by omega) with h' | h'
+        · exact Or.inl (Or.inr h')
+        · exact Or.inr h'
 
 end TdModel.C02Core
